@@ -301,7 +301,9 @@ def gen_witness_file(ctx):
 # ------------------------------------------------------------------ the check
 def run(ctx):
     ctx.cov["rule"] = (
-        "histories: random mostly-valid sequences (<=4 quick, <=6 thorough) of OMPLoopTrans(do|paralleldo|"
+        "systematic: every ordered pair of the 14 loop/region transformations on a 2-nest and directly nested, each on a loop "
+        "holding a RETURN, collapse=2 on both imperfect 2-nests, enter data inside each region, all followed by 2 (quick) / 11 "
+        "(thorough) enclosing-region suffixes; histories: random mostly-valid sequences (<=4 quick, <=6 thorough) of OMPLoopTrans(do|paralleldo|"
         "teamsdistributeparalleldo|loop), OMPParallelLoopTrans, OMPTaskloopTrans, ACCLoopTrans (collapse None/1/2/3, "
         "force or dependence analysis), OMPParallel/Single/Master/Target, ACCParallel/Kernels/Data region transformations "
         "on random sibling ranges or whole schedules, ACCEnterDataTrans, plus OMPTaskwaitTrans as an unmodelled step, on "
@@ -352,11 +354,12 @@ def run(ctx):
 
     # ---- 2. implementation runs
     rng = ctx.rng("hist")
-    n_hist = ctx.pick(170, 2400)
+    n_hist = ctx.pick(110, 1300)
     maxlen = ctx.pick(4, 6)
     steps, finals = [], []       # finals: dict(tree, wverdict, text, source, log, skeleton)
+    pool = [spec.gen_skeleton(rng, 3) for _ in range(max(8, n_hist // ctx.pick(4, 3)))]   # parsed once each
     for k in range(n_hist):
-        skel = spec.gen_skeleton(rng, 3)
+        skel = rng.choice(pool)
         fam = rng.choice(spec.FAMILIES)
         nops = rng.randint(1, maxlen)
         n_before = len(steps)
@@ -383,13 +386,40 @@ def run(ctx):
                        "source": "history", "skeleton": skel, "log": log, "accepted": accepted, "hist": k})
         ctx.hist("history_end", "written" if wv == "ok" else wv)
         ctx.hist("accepted_per_history", accepted)
+    # deterministic part: every ordered pair of transformations (see spec.systematic_histories)
+    n_sys = 0
+    omp_only = lambda ops: all(o[0].startswith("OMP") for o in ops)   # noqa: E731
+    sys_hist = spec.systematic_histories(spec.TOPS[:1] if not ctx.thorough else spec.TOPS)
+    if not ctx.thorough:
+        # an enclosing OMP parallel region only matters for histories made of OpenMP transformations
+        sys_hist += [h for h in spec.systematic_histories(spec.TOPS[1:2]) if omp_only(h[1])]
+    for skel, ops in sys_hist:
+        n_sys += 1
+        k = n_hist + n_sys
+        n_before = len(steps)
+        try:
+            vs, wv, text, tree = replay_witness({"skeleton": skel, "ops": ops}, steps)
+        except impl.OutOfModel as e:
+            ctx.hist("out_of_model", str(e)[:40])
+            continue
+        finally:
+            for st in steps[n_before:]:
+                st["hist"] = k
+        if tree is None:
+            ctx.hist("systematic_end", "crash")
+            continue
+        accepted = sum(1 for v in vs if v == "ok")
+        finals.append({"tree": tree, "wv": wv, "text": text if wv == "ok" else "", "msg": "" if wv == "ok" else text[:200],
+                       "source": "history", "skeleton": skel, "log": [op_json(o) for o in ops], "accepted": accepted, "hist": k})
+        ctx.hist("systematic_end", "written" if wv == "ok" else wv)
+    ctx.log("systematic histories=%d (%.0fs)" % (n_sys, time.time() - t0))
     for s in steps:
         ctx.hist("step_verdict", "%s:%s" % (s["op"][0], s["verdict"]))
     ctx.log("histories=%d steps=%d finals=%d (%.0fs)" % (n_hist, len(steps), len(finals), time.time() - t0))
 
     # directly built trees: writer with checks (gen_ok correspondence) and without (spec validation)
     rngd = ctx.rng("direct")
-    n_direct = ctx.pick(110, 2000)
+    n_direct = ctx.pick(100, 1200)
     unchecked = []
     seen_direct = set()
     for k in range(n_direct):
@@ -516,8 +546,18 @@ def run(ctx):
         fcases = ["(%s, %d, %s, %s)" % (spec.coq_forest(f["tree"]), {"ok": 0, "generr": 1, "crash": 2}[f["wv"]],
                                         spec.coq_nats(spec.wf_codes(f["tree"])), spec.coq_nats(spec.cc_codes(f["tree"])))
                   for f in finals]
-        bad_s = ctx.coq_eval_failing(HEADER, "step_case", "step_agrees", scases, shard=400)
-        bad_f = ctx.coq_eval_failing(HEADER, "final_case", "final_agrees", fcases, shard=400)
+        def eval_distinct(ctype, fn, cases):
+            """evaluate each distinct case once; returns the indices (into cases) of the failing ones"""
+            first = {}
+            for i, c in enumerate(cases):
+                first.setdefault(c, i)
+            uniq = list(first)
+            badu = set(uniq[j] for j in ctx.coq_eval_failing(HEADER, ctype, fn, uniq, shard=350))
+            return [i for i, c in enumerate(cases) if c in badu], len(uniq)
+
+        bad_s, n_us = eval_distinct("step_case", "step_agrees", scases)
+        bad_f, n_uf = eval_distinct("final_case", "final_agrees", fcases)
+        ctx.notes["distinct_cases_evaluated_in_coq"] = {"steps": n_us, "final_trees": n_uf}
         unsound_s = [bad_s[i] for i in ctx.coq_eval_failing(HEADER, "step_case", "step_sound",
                                                             [scases[i] for i in bad_s], shard=400)] if bad_s else []
         unsound_f = [bad_f[i] for i in ctx.coq_eval_failing(HEADER, "final_case", "final_sound",
